@@ -25,6 +25,7 @@ FORBIDDEN = re.compile(r"\b(sorry|admit|native_decide|bv_decide|implemented_by|u
 
 sys.path.insert(0, os.path.join(VERIF, "tools"))
 import genreg  # noqa: E402
+import smtsearch  # noqa: E402
 
 
 def load_props(prop):
@@ -292,6 +293,18 @@ def run_check(prop, tier, seed):
                     with open(os.path.join(cdir, fn)) as f:
                         lines += [l.rstrip("\n") for l in f if l.strip() and not l.startswith("#")]
         n_corpus = len(lines)
+        # failing-input search for translated functions that differ from the pinned reference translation (z3; support only)
+        smt_report = {}
+        from concurrent.futures import ThreadPoolExecutor
+        fns = [f for f in cfg.get("translated", []) if f in smtsearch.SPECS]
+        with ThreadPoolExecutor(max_workers=8) as ex:
+            for fn, (ops_found, why) in zip(fns, ex.map(lambda f: smtsearch.search(f, 90 if search_tier == "thorough" else 45), fns)):
+                if why != "equal":
+                    smt_report[fn] = why
+                if ops_found:
+                    lines = ops_found + lines
+        if smt_report:
+            notes.append("translated functions differing from the reference translation (z3 verdict): " + json.dumps(smt_report))
         env = dict(cfg.get("env", {}))
         rcg, gout, gerr = sh([TFH, "gen", prop, "--seed", str(seed), "--tier", search_tier], env=env, timeout=3600)
         if rcg != 0:
